@@ -54,8 +54,16 @@ package ice
 //@   ghostvar mustSwitch bool = false
 //@   ghostvar target int = 0
 //@   site store state#1 ghost target := pair
-//@   site store state#1 ghost mustSwitch := pendingRequest.isUseCandidate && (pendingRequest.nominationValue != nil || s.agent.getSelectedPair() == nil)
+//@   ghostvar lastBefore int = 0 - 1
+//@   ghostvar stale bool = false
+//@   ghostvar selectedBefore int = 0
+//@   site store state#1 ghost lastBefore := ite(s.lastConfirmedNomination != nil, *s.lastConfirmedNomination, 0 - 1)
+//@   site store state#1 ghost selectedBefore := s.agent.getSelectedPair()
+//@   site store state#1 ghost stale := pendingRequest.isUseCandidate && pendingRequest.nominationValue != nil && s.lastConfirmedNomination != nil && *pendingRequest.nominationValue < *s.lastConfirmedNomination
+//@   site store state#1 ghost mustSwitch := pendingRequest.isUseCandidate && ((pendingRequest.nominationValue != nil && (s.lastConfirmedNomination == nil || *pendingRequest.nominationValue >= *s.lastConfirmedNomination)) || (pendingRequest.nominationValue == nil && s.agent.getSelectedPair() == nil))
 //@   ensures C20 confirmed-nomination-is-selected: mustSwitch ==> s.agent.getSelectedPair() == cast(target, *CandidatePair)
+//@   ensures C20 a-late-response-to-an-older-nomination-changes-no-selection: stale ==> s.agent.getSelectedPair() == cast(selectedBefore, *CandidatePair)
+//@   site call setSelectedPair#1 assert C20 never-back-to-an-older-nomination: *pendingRequest.nominationValue >= lastBefore && s.lastConfirmedNomination != nil && *s.lastConfirmedNomination == *pendingRequest.nominationValue
 //@   site call handleInboundBindingSuccess#1 ghost s.agent.gTxOK := result0
 //@   site call responseSymmetric#1 assert C02 symmetric-check-after-transaction: s.agent.gTxOK && arg0 == pendingRequest
 //@   site call responseSymmetric#1 ghost s.agent.gSymOK := result
@@ -139,3 +147,5 @@ package ice
 //@   modifies fam:H_ice.Agent.pendingBindingRequests*, fam:H_ice.bindingRequest.*, fam:E_*
 //@   ensures result0 ==> result1 != nil && fresh(result1)
 //@   ensures no-match-no-request: !result0 ==> result1 == nil
+
+//@ enumerate C20 stores ice.controllingSelector.lastConfirmedNomination in (*controllingSelector).Start, (*controllingSelector).HandleSuccessResponse
